@@ -78,9 +78,24 @@ func soloLiveCases(maxIdle int) []soloLiveCase {
 }
 
 // RunSoloLivenessDriver enumerates the long-height cases and reports C12 violations.
-func RunSoloLivenessDriver(run *core.Run, cov core.Coverage) {
+func RunSoloLivenessDriver(run *core.Run, cov core.Coverage) { runSoloLiveness(run, cov, false) }
+
+// RunSoloStrayVoteDriver runs only the cases that start with a peer's stray vote of a
+// far future round (C08: whatever a peer sends, the node neither panics nor stops).
+func RunSoloStrayVoteDriver(run *core.Run, cov core.Coverage) { runSoloLiveness(run, cov, true) }
+
+func runSoloLiveness(run *core.Run, cov core.Coverage, strayOnly bool) {
 	maxIdle := run.Pick(11, 14)
 	cases := soloLiveCases(maxIdle)
+	if strayOnly {
+		var sel []soloLiveCase
+		for _, c := range cases {
+			if c.Stray != "" {
+				sel = append(sel, c)
+			}
+		}
+		cases = sel
+	}
 	var scs []*Scenario
 	for i, c := range cases {
 		scs = append(scs, &Scenario{ID: i, Powers: []int64{1, 1, 1, 1}, Byz: -1, Heights: 1, Mode: "nohash", Extra: "solo-long-height", Solo: &SoloSpec{Node: 2, Steps: c.Steps}})
